@@ -14,6 +14,7 @@
 -/
 import Proofs.Lemmas.EvalCalls
 import Proofs.Lemmas.ChainE2E
+import Proofs.Lemmas.WalkTop
 
 namespace Xsel.C02
 open Xsel Arena
@@ -296,5 +297,35 @@ theorem run_refines_spec_noRound (a : Arena) (h : wfb a = true) (env : Env) (hen
     (hnr : Chain.noRound e = true) :
     Res.Equiv (Model.run a env start e) (Spec.run a env start e) :=
   Chain.run_refines_spec_noRound a h env henv e start hs hsum hnr
+
+/-! ## through the parse forest: nothing after a filter expression is dropped
+
+The defects F08/F12 of the pinned tree were MISSING HANDLERS: the nonterminals `PathExprFilterWithPath` and
+`AbsoluteLocationPathWithRelative` had no entry in `exec.contextFunctions`, so `execChildren` evaluated
+their first child only and `(E)[p]/step`, `$v/step`, `f()/step` returned the value of the filter
+expression.  With the handler table regenerated from the code, the model of the walk over the parse forest
+(`Xsel/Walk.lean`) evaluates the step from the filtered nodes — for every filter expression, predicate and
+step (instance of `Walk.walk_refines_eval`). -/
+
+/-- **filter_then_path_forest** — `(E)[p]/axis::test[q…]`: the forest of this string, walked as the Go code
+    walks it, evaluates the step from the nodes the predicate kept -/
+theorem filter_then_path_forest (a : Arena) (env : Env) (start : Nat) (b p : Expr) (ax : Axis) (t : NodeTest)
+    (ps : Exprs) (h : Walk.walkOk (.step (.filt b p) ax t ps) = true) :
+    Walk.run Generated.handlers a env start (Walk.derivTop (.step (.filt b p) ax t ps)) =
+      Walk.ofEval (Model.run a env start
+        (.step (.filt (Syntax.normCtx b) (Syntax.normCtx p)) ax t (Syntax.normCtxs ps))) := by
+  have := Walk.walk_refines_eval a env start _ h
+  simpa [Syntax.normCtx, Syntax.normBase] using this
+
+/-- with the handler of `PathExprFilterWithPath` REMOVED from the table the step is dropped: `(/)[1]/child::a`
+    on `<r><a/></r>`… evaluates to the root alone (the old defect, as a theorem about the model) -/
+example :
+    let tbl := Generated.handlers.filter (fun p => p.1 != "PathExprFilterWithPath")
+    let e : Expr := .step (.filt .root (.num (.fin 1))) .child .node .nil
+    let a : Arena := #[{ kind := .root, kids := [1] }, { kind := .elem, loc := ['r'], pos := 1, parent := 0 }]
+    (match Walk.run tbl a {} 0 (Walk.derivTop e), Walk.run Generated.handlers a {} 0 (Walk.derivTop e) with
+     | .ok (.nodes [0]), .ok (.nodes [1]) => true
+     | _, _ => false) = true := by
+  decide +kernel
 
 end Xsel.C02
